@@ -184,8 +184,35 @@ pub fn cold_t(items: Vec<Val>, term: crate::model::Tm, ctr: usize) -> ObsT {
   .box_it()
 }
 
+/// `src` relayed through a Subject that is its observer: the subscriber joins the subject, then
+/// the source is connected to it (what `publish()` + `connect()` do)
+#[derive(Clone)]
+pub struct Relay(pub Obs);
+impl<O: Observer<Val, Val> + 'static> Observable<Val, Val, O> for Relay {
+  type Unsub = ZipSubscription<Subscriber<O>, BoxSubscription<'static>>;
+  fn actual_subscribe(self, observer: O) -> Self::Unsub {
+    let c = self.0.publish::<Subject<'static, Val, Val>>();
+    let u1 = c.fork().actual_subscribe(observer);
+    let u2 = c.connect();
+    ZipSubscription::new(u1, u2)
+  }
+}
+impl ObservableExt<Val, Val> for Relay {}
+#[derive(Clone)]
+pub struct RelayT(pub ObsT);
+impl<O: Observer<Val, Val> + Send + 'static> Observable<Val, Val, O> for RelayT {
+  type Unsub = ZipSubscription<SubscriberThreads<O>, BoxSubscriptionThreads>;
+  fn actual_subscribe(self, observer: O) -> Self::Unsub {
+    let c = self.0.publish::<SubjectThreads<Val, Val>>();
+    let u1 = c.fork().actual_subscribe(observer);
+    let u2 = c.connect();
+    ZipSubscription::new(u1, u2)
+  }
+}
+impl ObservableExt<Val, Val> for RelayT {}
+
 macro_rules! catalogue {
-  ($fname:ident, $obs:ty, $finalize:ident) => {
+  ($fname:ident, $obs:ty, $finalize:ident, $relay:ident) => {
     pub fn $fname(op: Op, src: $obs, p: &P) -> $obs {
       let th = p.th.clone();
       let pk = p.pk;
@@ -247,13 +274,14 @@ macro_rules! catalogue {
           let b: $obs = src.box_it();
           b
         }
+        Op::Relay => $relay(src).box_it(),
       }
     }
   };
 }
 
-catalogue!(build, Obs, finalize);
-catalogue!(build_t, ObsT, finalize_threads);
+catalogue!(build, Obs, finalize, Relay);
+catalogue!(build_t, ObsT, finalize_threads, RelayT);
 
 // ---------------------------------------------------------------- two-input combinators
 
